@@ -38,6 +38,17 @@ CHECKS = {
         design_ref='DESIGN.md section 9 C15',
         note=BASE_NOTE + 'pyparsing tokenisation of the DATA statement and Python float() are not modelled.',
         technique='Lean 4 theorems over an executable model + model/implementation correspondence'),
+    'C18': dict(
+        category='proof',
+        text='Theorems over Model/Input.lean for ALL requests and response histories: prompt/question rule, a refused line '
+             'leaves nothing on the stack, acceptance gives one well-formed in-range field per variable pushed so that '
+             'field i reaches variable i, any number of refused lines followed by an accepted one ends with exactly that '
+             'line\'s cells, argument protocol round trip; the unrepaired behaviour is kept as a machine-checked '
+             'counterexample. Model tied to TerminalDevice._exec_input by scripted histories, and compiled INPUT statements '
+             '(scalar/element/field targets, in SUBs) are compared with the property\'s rules.',
+        design_ref='DESIGN.md section 9 C18',
+        note=BASE_NOTE + 'Python int()/float() outside the ASCII fragment are gray (corresponded where decided, not judged).',
+        technique='Lean 4 theorems over an executable model + model/implementation correspondence'),
 }
 
 PENDING = ('not yet decided by the Lean framework in this commit; design in DESIGN.md section 9, implementation order in '
